@@ -248,7 +248,7 @@ def validate(ctx, spec, trace, stats, prop, name, parallel=8, cfg=None, max_viol
     parts = split_trace(trace, parallel if nexec >= 4 * parallel else 1)
     rejections = []
 
-    t1 = 150 if ctx.quick else 900      # per chunk
+    t1 = 240 if ctx.quick else 900      # per chunk
     t2 = 45 if ctx.quick else 100       # per single execution (fallback)
 
     def one_file(fn, tag, timeout):
@@ -294,7 +294,7 @@ def validate(ctx, spec, trace, stats, prop, name, parallel=8, cfg=None, max_viol
         """time allowed for one validation run: generous for a linear search (a few thousand lines per second), so that a
         search that blows up is cut short early instead of eating the whole per-chunk allowance"""
         nl = sum(1 for _ in open(fn))
-        return max(30, min(t1, nl // 150))
+        return max(45, min(t1, nl // 75))
 
     def rec_file(fn, tag):
         """validate a file; when the search is too expensive bisect it (down to single executions, which are skipped)"""
@@ -379,6 +379,9 @@ def finish(ctx, level, rule, assumptions, extra=None):
     for v in ctx.violations:
         log(f'VIOLATION property={ctx.pid} replay={v["replay"]}')
         log(f'  {v["sig"]}: {v["text"]}')
+    if getattr(ctx, 'tv_skipped', 0):
+        log(f'NOTE {ctx.pid}: {ctx.tv_skipped} recorded execution(s) were not validated (validation timed out - machine overloaded or '
+            f'search too expensive); they count neither as passed nor as failed')
     log(f'{ctx.pid} {ctx.tier}: states={ctx.states} traces_ok={ctx.traces_ok}/{ctx.evaluations} '
         f'violations={len(ctx.violations)} known={len(ctx.known)} wall={ev["wall_s"]}s')
     return 1 if ctx.violations else 0
